@@ -16,8 +16,14 @@ def _choice(rng, xs):
 
 def change_score(rng, p, allow_user=True):
     """(spec or None, min_size)"""
-    opts = ["none", "CUSUM", "L2Cost", "GaussianVarCost", "L1Cost"] + (["Hash"] if allow_user else [])
+    opts = ["none", "CUSUM", "L2Cost", "GaussianVarCost", "L1Cost"] + (
+        ["Hash", "HashMV", "GaussianCovCost"] if allow_user else [])
     k = _choice(rng, opts)
+    if k == "GaussianCovCost":
+        return S("GaussianCovCost", param=None), p + 1
+    if k == "HashMV":  # inherently multivariate user score: one output column for all variables
+        return S("HashChangeScore", seed=int(rng.integers(1000)), modulus=int(_choice(rng, [3, 7, 13])),
+                 minsize=1, multivariate=True), 1
     if k == "none":
         return None, 1
     if k == "CUSUM":
@@ -47,7 +53,7 @@ def pelt(rng, p, dense_events):
         cost = S("L2Cost", param=0.0)
     else:
         cost = S("ClosureTableCost", seed=int(rng.integers(1000)), maxinc=int(rng.integers(1, 4)),
-                 zero_prob=float(_choice(rng, [0.3, 0.6])))
+                 zero_prob=float(_choice(rng, [0.3, 0.6])), offset=int(_choice(rng, [0, 0, 2, 5])))
     scales = [0.0, 0.02, 0.1, 0.5, 1.0] if dense_events else [0.0, 0.1, 0.5, 1.0, 2.0, 5.0]
     return S("PELT", cost=cost, penalty_scale=float(_choice(rng, scales)), min_segment_length=msl), 2 * msl
 
@@ -120,8 +126,13 @@ def mvcapa(rng, p, dense_events):
 
 
 def cbs(rng, p, dense_events):
-    k = _choice(rng, ["none", "L2Cost", "GaussianVarCost", "Hash", "L2local"])
+    k = _choice(rng, ["none", "L2Cost", "GaussianVarCost", "Hash", "L2local", "HashMV"])
     msl = int(rng.integers(1, 5))
+    if k == "HashMV":
+        k = "Hash"
+        mv = True
+    else:
+        mv = False
     if k == "none":
         sc = None
     elif k == "L2Cost":
@@ -131,7 +142,8 @@ def cbs(rng, p, dense_events):
     elif k == "L2local":
         sc = S("LocalAnomalyScore", cost=S("L2Cost", param=None))
     else:
-        sc = S("HashLocalAnomalyScore", seed=int(rng.integers(1000)), modulus=int(_choice(rng, [3, 7, 13])))
+        sc = S("HashLocalAnomalyScore", seed=int(rng.integers(1000)), modulus=int(_choice(rng, [3, 7, 13])),
+               multivariate=mv)
     mil = 2 * msl if rng.random() < 0.2 else int(rng.integers(2 * msl, 2 * msl + 20))
     scales = [0.0, 0.05, 0.3, 1.0, None] if dense_events else [0.0, 0.3, 1.0, 2.0, None]
     return S("CircularBinarySegmentation", anomaly_score=sc, threshold_scale=_choice(rng, scales),
